@@ -26,7 +26,7 @@ T_ISO = {"T_HOO": 3, "HCT": 3, "VHCT": 2, "DOO": 3, "SOO": 3, "StoSOO": 3, "Sequ
 def bounds(tier):
     q = 0 if tier == "quick" else 1
     return {"determinism_rounds": {k: v + q for k, v in T_DET.items()}, "isolation_rounds_per_instance": {k: v + q for k, v in T_ISO.items()},
-            "partitions": "determinism: B, RB, K3, RK3; isolation: B, K3, DB (d=1)", "pairs": "same class twice, and T_HOO against each other class",
+            "partitions": "determinism: B, RB, K3, RK3; isolation: B, K3, DB (d=1)", "pairs": "same class twice (same arguments: every interleaving; other arguments: B k rounds, A all rounds, B the rest, for every k), and T_HOO against each other class",
             "outside": "longer runs; hash-ordering effects"}
 
 
@@ -60,6 +60,13 @@ def configs(tier, seed):
         out.append({"name": "iso-%s-DB-shared-domain-T%d" % (algo, min(T + q, 2)), "mode": "iso", "algo": algo, "other": algo, "part": "DB", "d": 2, "T": min(T + q, 2), "shared_dom": True, "cost": 20})
         if algo != "T_HOO":
             out.append({"name": "iso-T_HOO-vs-%s-B-T%d" % (algo, T + q), "mode": "iso", "algo": "T_HOO", "other": algo, "part": "B", "d": 1, "T": min(T + q, 3), "cost": 20})
+    # two live instances of the SAME class with DIFFERENT constructor arguments (anything shared through the class
+    # or the module and keyed by less than the arguments is then wrong for one of them): B runs k rounds, then A
+    # runs all of its rounds, then B the rest, for every k; B's rewards are concrete (seed S-C14-5)
+    for algo, T in {"T_HOO": 6, "HCT": 7, "VHCT": 4, "DOO": 5, "SOO": 6, "StoSOO": 8, "SequOOL": 7, "StroquOOL": 9, "Zooming": 4, "POO": 6, "GPO": 6}.items():
+        Tq = T + (q if algo != "VHCT" else 0)
+        out.append({"name": "iso-%s-B-otherargs-blocks-T%d" % (algo, Tq), "mode": "iso", "algo": algo, "other": algo, "other_params": OTHER_ARGS[algo],
+                    "blocks": True, "part": "B", "d": 1, "T": Tq, "cost": 40})
     for algo, T in T_DET.items():
         Tq = T + q + (3 if algo in ("SequOOL", "StoSOO", "SOO") else 0)
         out.append({"name": "reuse-%s-B-T%d" % (algo, Tq), "mode": "reuse", "algo": algo, "part": "B", "d": 1, "T": Tq, "cost": Tq * 4})
@@ -219,20 +226,28 @@ def run(ctx, cfg):
     # isolation
     shims.rng_fresh()
     rb = [ctx.real("s%d" % t) for t in range(1, T + 1)]
+    cfg_b = dict(cfg, algo=cfg["other"])
+    if cfg.get("other_params") is not None:
+        cfg_b["params"] = cfg["other_params"]
+    if cfg.get("blocks"):
+        rb = [(0.3, 0.9, 0.1, 0.7, 0.5, 0.6, 0.2, 0.8)[t % 8] for t in range(T)]
     if cfg.get("shared_dom"):
         dom_b = dom  # both instances are built from the very same list object
     else:
         dom_b = sym_box(ctx, d)  # the second instance lives on its own box
     snap_b = snapshot(dom_b)
     solo_a = one_run(ctx, cfg, dom, rewards, T)
-    solo_b = one_run(ctx, cfg, dom_b, rb, T, algo_name=cfg["other"])
+    solo_b = one_run(ctx, cfg_b, dom_b, rb, T)
     A = build(ctx, cfg, dom)
-    B = build(ctx, dict(cfg, algo=cfg["other"]), dom_b)
+    B = build(ctx, cfg_b, dom_b)
     ia = ib = 0
     pa, pb = [], []
     trace = []
+    kb = ctx.choose(T + 1, "B_first") if cfg.get("blocks") else None
     while ia < T or ib < T:
-        if ia < T and ib < T:
+        if kb is not None:
+            who = 1 if (ib < kb or ia >= T) else 0
+        elif ia < T and ib < T:
             who = ctx.choose(2, "interleave")
         else:
             who = 0 if ia < T else 1
